@@ -26,6 +26,15 @@ class Shaped(Value):
         return 'Shaped(%s,%r)' % (self.label, self.shape)
 
 
+class DTypeOf(Value):
+    """the element type of an array known only by its shape: whatever the caller passed"""
+    def __init__(self, arr):
+        self.arr = arr
+
+    def __repr__(self):
+        return 'dtype of %s' % (self.arr.label or 'an array')
+
+
 class IndexDomain(ArrNormDomain):
     name = 'INDEX'
 
@@ -161,7 +170,7 @@ class IndexDomain(ArrNormDomain):
             if name == 'ndim':
                 return Const(len(v.shape.items))
             if name == 'dtype':
-                return Unknown('dtype')
+                return DTypeOf(v)
             if name == 'size':
                 acc = Const(1)
                 for d in v.shape.items:
@@ -193,7 +202,7 @@ class IndexDomain(ArrNormDomain):
                     return Unknown('reduction over unknown axes')
                 nd = len(v.shape.items)
                 axes = [a % nd for a in axes]
-                self.interp.emit('reduce', which=name, target=v, axes=axes, lengths=[v.shape.items[a] for a in axes], node=node)
+                self.interp.emit('reduce', which=name, target=v, axes=axes, lengths=[v.shape.items[a] for a in axes], node=node, dtype=kwargs.get('dtype'))
                 return Shaped(Tup([d for i, d in enumerate(v.shape.items) if i not in axes]), v.label, origin=('reduce', name, v, axes))
             return Unknown('method %s on array' % name)
         return ArrNormDomain.method(self, v, name, args, kwargs, node)
